@@ -2693,14 +2693,18 @@ class FuncMul(ValueFunc):
         if a.isNull() or b.isNull():
             return NULL
 
-        if a.isString() and b.isInt():
-            return ValueString(a.value * b.value)
+        try:
+            if a.isString() and b.isInt():
+                return ValueString(a.value * b.value)
 
-        if a.isList() and b.isInt():
-            result = ValueList()
-            for i in range(b.value):
-                result.addItems(a.value)
-            return result
+            if a.isList() and b.isInt():
+                return ValueList().addItems(a.value * b.value)
+        except (OverflowError, MemoryError):
+            raise CklRuntimeError(
+                ValueString("ERROR"),
+                "Cannot repeat " + a.type() + " " + str(b) + " times",
+                pos,
+            )
 
         if a.isInt() and b.isInt():
             return ValueInt(a.value * b.value)
